@@ -81,7 +81,7 @@ def rule_r1(ctx, rep):
             rep.add("R1", esc.origin[0], esc.origin[1], f"{h.short(esc.cls)} may escape expand; only the documented ValueError (duplicate id, "
                     f"dangling reference) may: {esc.origin[2]}", esc.loc)
     rep.assumed_total |= eng.assumed_total
-    rep.floor("model writes in expand", 3)
+    rep.floor("model writes in expand", 2)
     rep.floor("failure points of expand", 2)
 
 
